@@ -36,6 +36,7 @@ type HOp struct {
 	Other    *ref.Tx  `json:"other,omitempty"`  // readfrom: the transaction decoded into the populated object
 	Ext      bool     `json:"ext,omitempty"`    // readfrom: format of the encoding
 	Trail    pbt.Hex  `json:"trail,omitempty"`  // readfrom: bytes behind the encoding that must stay unread
+	Script   *gen.C09Script `json:"script,omitempty"` // readfrom (round 9): how the reader hands the bytes over (never failing)
 	Switch   bool     `json:"switch,omitempty"` // clone: the history continues on the clone (else on the original)
 	Q        []string `json:"q"`                // queries asked after the edit
 	Scribble bool     `json:"scribble,omitempty"`
@@ -673,7 +674,16 @@ func checkHistory(ctx *pbt.Ctx, c History) error {
 			}
 		case "readfrom":
 			enc := ref.Encode(*op.Other, op.Ext)
-			r := bytes.NewReader(append(append([]byte{}, enc...), op.Trail...))
+			var rscripts []gen.C09Script
+			if op.Script != nil {
+				if !op.Script.Valid() || op.Script.Fail {
+					ctx.Discard("invalid case: script")
+					return nil
+				}
+				rscripts = []gen.C09Script{*op.Script}
+				ctx.Label("readfrom reader script=" + op.Script.Name())
+			}
+			r, left, rname := source(append(append([]byte{}, enc...), op.Trail...), rscripts, 1)
 			// the element objects the receiver holds now (built by the caller or produced by an
 			// earlier decode) are not the decoder's to reuse: they must keep their content
 			shadows = append(shadows, shadow{fmt.Sprintf("the inputs and outputs the object held before the ReadFrom of step %d", step),
@@ -681,10 +691,10 @@ func checkHistory(ctx *pbt.Ctx, c History) error {
 				ref.Encode(m, false), ref.Encode(m, true)})
 			n, err := cur.ReadFrom(r)
 			if err != nil {
-				return fmt.Errorf("step %d: ReadFrom into the populated object rejected a reference encoding: %v", step, err)
+				return fmt.Errorf("step %d: ReadFrom into the populated object on %s rejected a reference encoding: %v", step, rname, err)
 			}
-			if n != int64(len(enc)) || r.Len() != len(op.Trail) {
-				return fmt.Errorf("step %d: ReadFrom into the populated object reported %d bytes and left %d in the reader; the transaction has %d bytes and %d follow it", step, n, r.Len(), len(enc), len(op.Trail))
+			if n != int64(len(enc)) || left() != len(op.Trail) {
+				return fmt.Errorf("step %d: ReadFrom into the populated object on %s reported %d bytes and left %d in the reader; the transaction has %d bytes and %d follow it", step, rname, n, left(), len(enc), len(op.Trail))
 			}
 			applyModel(op, &m)
 			if err := sameAs(fmt.Sprintf("step %d: ReadFrom into the populated object", step), cur, m, op.Ext); err != nil {
@@ -864,6 +874,10 @@ func genHistory(t *rapid.T) History {
 			op.Other, op.Ext = &o, rapid.Bool().Draw(t, "ext")
 			if rapid.Bool().Draw(t, "has_trail") {
 				op.Trail = gen.Bytes(t, rapid.IntRange(1, 9).Draw(t, "ntrail"), "trail")
+			}
+			if rapid.IntRange(0, 2).Draw(t, "scripted") != 0 {
+				sc := gen.C09GenScript(t, len(ref.Encode(o, op.Ext))+len(op.Trail), false)
+				op.Script = &sc
 			}
 		case "clone":
 			op.Switch = rapid.Bool().Draw(t, "switch")
